@@ -45,10 +45,9 @@ def run(ctx):
 
         roots = scheme_roots(P, f)
         ctx.ob("E2.own-scheme", f.key, bool(roots) and all(r == "sig.scheme" for r in roots), "share verification selects the tag by %s (want the ciphertext's scheme `sig.scheme`)" % roots, where=where(f))
-        oks = R.ok_blocks(f)
+        oks = R.ok_exits(P, f, ev, inline_bools=False)
         good = bool(oks)
-        for b in oks:
-            lits = G.path_literals(ev, b, None)
+        for b, lits in oks:
             good = good and any(p and a[1] == "term" and a[2].op == "call" and B.cname(a[2]) == "BlsSignCrypt::verify_share" for a, p in lits)
         ctx.ob("E4.share-verify", f.key + "/ok", good, "Ok(()) only on the true edge of verify_share(..)", where=where(f))
     g = ctx.need_fn("E4.verify_share", "BlsSignCrypt::verify_share")
